@@ -53,7 +53,7 @@ func zeroFirstTable(n int, seed int64) *vtable {
 		return t
 	}
 	if n == 0 {
-		t.vals[jsonapi.AttrTypeString] = []any{"", "a\\u0026b\\u003c\\u003e", "\x00<&>\"\\é漢\U0001F600", "null"} // rank 1: a literal backslash before u0026: the text of a JSON escape; rank 3: a text that spells a JSON literal
+		t.vals[jsonapi.AttrTypeString] = []any{"", "a\\u0026b\\u003c\\u003e", "\x00<&>\"\\é漢\U0001F600\uFFFD", "null"} // rank 2 ends in U+FFFD itself (valid UTF-8: what a decoder writes for bad bytes is also a character); rank 1: a literal backslash before u0026: the text of a JSON escape; rank 3: a text that spells a JSON literal
 		t.vals[jsonapi.AttrTypeInt] = []any{int(0), int(-1), int(math.MaxInt64), int(math.MinInt64)}
 		t.vals[jsonapi.AttrTypeInt8] = []any{int8(0), int8(math.MinInt8), int8(math.MaxInt8), int8(1)}
 		t.vals[jsonapi.AttrTypeInt16] = []any{int16(0), int16(math.MinInt16), int16(math.MaxInt16), int16(-1)}
@@ -66,7 +66,7 @@ func zeroFirstTable(n int, seed int64) *vtable {
 		t.vals[jsonapi.AttrTypeUint64] = []any{uint64(0), uint64(1), uint64(math.MaxUint64), uint64(1<<63 + 1)}
 		t.vals[jsonapi.AttrTypeBool] = []any{false, true}
 		t.vals[jsonapi.AttrTypeTime] = []any{time.Time{}, mustTime("2001-02-03T04:05:06.789012345Z"),
-			mustTime("9999-12-31T23:59:59.999999999+14:00"), mustTime("0001-01-01T00:00:00.000000001-07:30")}
+			mustTime("9999-12-31T23:59:59.999999999-00:30"), mustTime("0000-01-01T00:00:00.000000001+07:30")} // ranks 2, 3: the last and first local instants RFC 3339 can write; read in UTC their years are 10000 and -1
 		t.vals[jsonapi.AttrTypeBytes] = []any{[]byte{}, []byte{1, 2, 3}, []byte{3, 2, 1}, []byte{0x9e, 0xe9, 0x65}} // ranks 1..3: same length (in-place overwrite); rank 3 reads "null" in base64
 		return t
 	}
@@ -109,7 +109,7 @@ func randString(r *rand.Rand) string {
 	if r.Intn(10) == 0 { // texts that spell something else in JSON
 		return []string{"null", "true", "false", "0", "-1", "[]", "{}", "\"\"", "1e3", "nul"}[r.Intn(10)]
 	}
-	alphabet := []rune("ab \x00<>&\"\\/é漢\U0001F600z%+#?")
+	alphabet := []rune("ab \x00<>&\"\\/é漢\U0001F600z%+#?\uFFFD")
 	n := 1 + r.Intn(6)
 	out := make([]rune, n)
 	for i := range out {
@@ -129,11 +129,12 @@ func randBytes(r *rand.Rand, n int) []byte {
 // randTime: an instant in years 1..9999 with a fixed zone and nanoseconds.
 func randTime(r *rand.Rand) time.Time {
 	year := 1 + r.Intn(9999)
-	if year == 1 || year == 9999 {
-		year = 2 + r.Intn(9990) // stay clear of zone offsets crossing the representable range
-	}
 	off := (r.Intn(57) - 28) * 30 * 60 // -14h..+14h in half hours
 	zone := time.FixedZone("", off)
+	if r.Intn(12) == 0 {
+		// the local years at both ends of what RFC 3339 can write, whatever the instant is called in UTC
+		year = []int{0, 9999}[r.Intn(2)]
+	}
 	return time.Date(year, time.Month(1+r.Intn(12)), 1+r.Intn(28), r.Intn(24), r.Intn(60), r.Intn(60), r.Intn(1e9), zone)
 }
 
